@@ -378,3 +378,529 @@ Proof.
     + destruct HRun as [cur' Hc]. rewrite Hc. cbn. do 2 eexists; reflexivity.
     + reflexivity.
 Qed.
+
+(* ------------------------------------------------------------------ in_keys_sufficient *)
+Definition defined (e : env) (k : key) : Prop := e k <> None.
+Definition no_sink_in (n : node) : bool := forallb (fun l => negb (memk sink (ins l))) (leaves n).
+
+Lemma eread_some : forall ks e, (forall k, List.In k ks -> defined e k) -> exists args, eread ks e = Some args.
+Proof.
+  induction ks as [|k r IH]; intros e H; cbn; [eexists; reflexivity|].
+  destruct (e k) eqn:E; [|exfalso; apply (H k); [now left|assumption]].
+  destruct (IH e) as [args Ha]; [intros; apply H; now right|]. rewrite Ha. eexists; reflexivity.
+Qed.
+Lemma eread_defined : forall ks e args, eread ks e = Some args -> forall k, List.In k ks -> defined e k.
+Proof.
+  induction ks as [|k r IH]; intros e args H k' Hk; [destruct Hk|]. cbn in H.
+  destruct (e k) eqn:E; [|discriminate]. destruct (eread r e) eqn:E2; [|discriminate].
+  destruct Hk as [->|Hk]; [unfold defined; congruence|]. eapply IH; eassumption.
+Qed.
+
+Lemma ewrite_mono : forall kvs e k, defined e k -> defined (ewrite kvs e) k.
+Proof.
+  unfold ewrite. induction kvs as [|kv r IH]; intros e k H; cbn; [assumption|]. apply IH.
+  destruct (is_sink (fst kv)); [assumption|]. unfold defined, eupd. destruct (key_eqb k (fst kv)); [discriminate|assumption].
+Qed.
+Lemma ewrite_written : forall kvs e k, List.In k (map fst kvs) -> is_sink k = false -> defined (ewrite kvs e) k.
+Proof.
+  unfold ewrite. induction kvs as [|kv r IH]; intros e k H Hs; [destruct H|]. cbn.
+  destruct H as [H|H].
+  - subst k. rewrite Hs. apply (ewrite_mono r). unfold defined, eupd. now rewrite key_eqb_refl.
+  - now apply IH.
+Qed.
+
+Lemma spec_run_mono : forall ls e e', spec_run ls e = Some e' -> forall k, defined e k -> defined e' k.
+Proof.
+  induction ls as [|l r IH]; intros e e' H k Hk; cbn in H; [inversion H; now subst|].
+  unfold apply_leaf in H. destruct (eread (ins l) e); [|discriminate].
+  eapply IH; [eassumption|]. now apply ewrite_mono.
+Qed.
+
+Lemma add_ins_incl : forall ok mi ik k, List.In k ik -> List.In k (add_ins ok ik mi).
+Proof.
+  unfold add_ins. induction mi as [|m r IH]; intros ik k H; cbn; [assumption|]. apply IH.
+  destruct (memk m (ok ++ ik)); [assumption|apply in_or_app; now left].
+Qed.
+Lemma add_ins_covers : forall ok mi ik k, List.In k mi -> List.In k ok \/ List.In k (add_ins ok ik mi).
+Proof.
+  unfold add_ins. induction mi as [|m r IH]; intros ik k H; [destruct H|]. cbn.
+  destruct H as [->|H]; [|now apply IH].
+  destruct (memk k (ok ++ ik)) eqn:M.
+  - apply memk_In in M. apply in_app_or in M as [M|M]; [now left|]. right. now apply (add_ins_incl ok r).
+  - right. apply (add_ins_incl ok r). apply in_or_app. right. now left.
+Qed.
+Lemma add_ins_sub : forall ok mi ik k, List.In k (add_ins ok ik mi) -> List.In k ik \/ List.In k mi.
+Proof.
+  unfold add_ins. induction mi as [|m r IH]; intros ik k H; cbn in H; [now left|].
+  apply IH in H as [H|H]; [|right; now right].
+  destruct (memk m (ok ++ ik)); [now left|]. apply in_app_or in H as [H|[->|[]]]; [now left|right; now left].
+Qed.
+
+Definition iofold (ms : list node) (acc : list key * list key) := fold_left (fun acc m => step_io acc (io m)) ms acc.
+
+Lemma iofold_ik_mono : forall ms acc k, List.In k (fst acc) -> List.In k (fst (iofold ms acc)).
+Proof.
+  unfold iofold. induction ms as [|m r IH]; intros acc k H; cbn; [assumption|]. apply IH. cbn. now apply add_ins_incl.
+Qed.
+Lemma iofold_ik_sub : forall ms acc k, List.In k (fst (iofold ms acc)) ->
+  List.In k (fst acc) \/ exists m, List.In m ms /\ List.In k (in_keys m).
+Proof.
+  unfold iofold. induction ms as [|m r IH]; intros acc k H; cbn in H; [now left|].
+  apply IH in H as [H|[m' [Hm Hk]]].
+  - cbn in H. apply add_ins_sub in H as [H|H]; [now left|]. right. exists m. split; [now left|assumption].
+  - right. exists m'. split; [now right|assumption].
+Qed.
+Lemma iofold_ok : forall ms acc, snd (iofold ms acc) = snd acc ++ flat_map out_keys ms.
+Proof.
+  unfold iofold. induction ms as [|m r IH]; intro acc; cbn; [now rewrite app_nil_r|].
+  rewrite IH. cbn. now rewrite app_assoc.
+Qed.
+
+Lemma dedup_last_In : forall l k, List.In k (dedup_last l) <-> List.In k l.
+Proof.
+  induction l as [|x r IH]; intro k; cbn; [tauto|].
+  destruct (memk x r) eqn:M.
+  - rewrite IH. split; [now right|]. intros [->|H]; [now apply memk_In|assumption].
+  - cbn. now rewrite IH.
+Qed.
+
+Lemma in_keys_from_leaves : forall n k, List.In k (in_keys n) -> exists l, List.In l (leaves n) /\ List.In k (ins l).
+Proof.
+  induction n as [l|c ms IH] using node_ind'; intros k H.
+  - exists l. split; [now left|assumption].
+  - unfold in_keys in H. cbn in H. fold (iofold ms ([], [])) in H.
+    apply iofold_ik_sub in H as [[]|[m [Hm Hk]]].
+    rewrite Forall_forall in IH. destruct (IH m Hm k Hk) as [l [Hl Hi]].
+    exists l. split; [|assumption]. cbn. apply in_flat_map. now exists m.
+Qed.
+
+Definition suff (n : node) : Prop :=
+  forall e, (forall k, List.In k (in_keys n) -> defined e k) ->
+  exists e', spec_run (leaves n) e = Some e' /\ (forall k, List.In k (out_keys n) -> k <> sink -> defined e' k).
+
+Lemma suff_list : forall ms, Forall (fun n => regular n = true -> no_sink_in n = true -> suff n) ms ->
+  forallb regular ms = true -> forallb no_sink_in ms = true ->
+  forall acc e,
+    (forall k, List.In k (fst (iofold ms acc)) -> defined e k) ->
+    (forall k, List.In k (snd acc) -> k <> sink -> defined e k) ->
+    exists e', spec_run (flat_map leaves ms) e = Some e'
+      /\ (forall k, List.In k (snd (iofold ms acc)) -> k <> sink -> defined e' k).
+Proof.
+  induction ms as [|m r IH]; intros HF HR HN acc e Hik Hok.
+  - cbn. exists e. split; [reflexivity|assumption].
+  - cbn [forallb] in HR, HN. apply andb_true_iff in HR as [HRm HRr]. apply andb_true_iff in HN as [HNm HNr].
+    inversion HF as [|? ? Hm Hr]; subst. specialize (Hm HRm HNm).
+    set (acc1 := step_io acc (io m)).
+    assert (E : iofold (m :: r) acc = iofold r acc1) by reflexivity. rewrite E in *.
+    destruct (Hm e) as [e1 [H1 H1o]].
+    { intros k Hk. destruct (add_ins_covers (snd acc) (in_keys m) (fst acc) k Hk) as [H|H].
+      - apply Hok; [assumption|]. intro Es. subst k.
+        destruct (in_keys_from_leaves m sink Hk) as [l [Hl Hi]].
+        unfold no_sink_in in HNm. rewrite forallb_forall in HNm. specialize (HNm l Hl).
+        apply memk_In in Hi. rewrite Hi in HNm. discriminate.
+      - apply Hik. now apply iofold_ik_mono. }
+    destruct (IH Hr HRr HNr acc1 e1) as [e' [H2 H2o]].
+    + intros k Hk. eapply spec_run_mono; [eassumption|]. now apply Hik.
+    + intros k Hk Hs. cbn in Hk. apply in_app_or in Hk as [Hk|Hk].
+      * eapply spec_run_mono; [eassumption|]. now apply Hok.
+      * now apply H1o.
+    + exists e'. split; [|assumption]. cbn [flat_map]. rewrite spec_run_app, H1. assumption.
+Qed.
+
+Lemma suff_node : forall n, regular n = true -> no_sink_in n = true -> suff n.
+Proof.
+  induction n as [l|c ms IH] using node_ind'; intros HR HN e He.
+  - cbn [leaves spec_run]. unfold apply_leaf. destruct (eread_some (ins l) e He) as [args Ha]. rewrite Ha.
+    eexists. split; [reflexivity|]. intros k Hk Hs. cbn in HR. apply andb_true_iff in HR as [_ HR].
+    unfold out_keys in Hk. cbn in Hk. unfold leaf_out in Hk. destruct (lsel l); [discriminate|].
+    apply ewrite_written; [now rewrite fst_leaf_vals|now apply sink_neq].
+  - cbn in HR. apply andb_true_iff in HR as [HR H4]. apply andb_true_iff in HR as [HR H3].
+    apply andb_true_iff in HR as [H1 H2]. destruct (ssel c) eqn:Es; [discriminate|].
+    assert (HN' : forallb no_sink_in ms = true).
+    { unfold no_sink_in in HN. cbn [leaves] in HN. rewrite forallb_forall in HN. apply forallb_forall. intros m Hm.
+      unfold no_sink_in. apply forallb_forall. intros l Hl. apply HN. apply in_flat_map. now exists m. }
+    destruct (suff_list ms IH H4 HN' ([], []) e) as [e' [H5 H6]].
+    + exact He.
+    + intros k [].
+    + exists e'. split; [exact H5|]. intros k Hk Hs. apply H6; [|assumption].
+      unfold out_keys in Hk. cbn [io snd] in Hk. rewrite Es in Hk. apply (proj1 (dedup_last_In _ _)) in Hk. exact Hk.
+Qed.
+
+(* top module, any configuration: running on a tensordict that holds the advertised in_keys never raises *)
+Lemma in_keys_sufficient : forall n x o, top_regular n = true -> no_sink_in n = true ->
+  (forall k, List.In k (in_keys n) -> has k x = true) ->
+  exists x' o' r, fwd n x o = Done x' o' r.
+Proof.
+  intros n x o HT HN Hx.
+  assert (HS : exists e', spec_run (leaves n) (env_of x) = Some e').
+  { assert (Hd : forall k, List.In k (in_keys n) -> defined (env_of x) k).
+    { intros k Hk. specialize (Hx k Hk). unfold has in Hx. unfold defined, env_of. destruct (get k x); [discriminate|discriminate]. }
+    destruct n as [l|c ms].
+    - cbn [leaves spec_run]. unfold apply_leaf. destruct (eread_some (ins l) _ Hd) as [a Ha]. rewrite Ha. eexists; reflexivity.
+    - (* in_keys do not depend on the configuration: use the default one *)
+      cbn in HT. apply andb_true_iff in HT as [_ HR].
+      assert (R : regular (Seq (default_cfg false) ms) = true) by (cbn; exact HR).
+      destruct (suff_node (Seq (default_cfg false) ms) R HN (env_of x)) as [e' [H _]]; [exact Hd|].
+      exists e'. exact H. }
+  destruct HS as [e' HS].
+  destruct n as [l|c ms].
+  - cbn [fwd]. unfold fwd_leaf. cbn [leaves spec_run] in HS. unfold apply_leaf in HS. rewrite read_all_eread.
+    destruct (eread (ins l) (env_of x)); [|discriminate].
+    destruct o; [do 3 eexists; reflexivity|]. destruct (linpl l); do 3 eexists; reflexivity.
+  - destruct (seq_values c ms x o e' HT HS) as [x' [o' [r [_ [H _]]]]]. now exists x', o', r.
+Qed.
+
+(* ------------------------------------------------------------------ out_keys_last_writer *)
+Lemma ewrite_frame : forall kvs e k, ~ List.In k (map fst kvs) \/ is_sink k = true -> ewrite kvs e k = e k.
+Proof.
+  unfold ewrite. induction kvs as [|kv r IH]; intros e k H; cbn; [reflexivity|].
+  rewrite IH.
+  - destruct (is_sink (fst kv)) eqn:S; [reflexivity|]. unfold eupd. destruct (key_eqb k (fst kv)) eqn:E; [|reflexivity].
+    apply key_eqb_eq in E. subst k. destruct H as [H|H]; [exfalso; apply H; now left|congruence].
+  - destruct H as [H|H]; [left; intro HI; apply H; now right|now right].
+Qed.
+
+Lemma ewrite_last : forall kvs1 k v kvs2 e, is_sink k = false -> ~ List.In k (map fst kvs2) ->
+  ewrite (kvs1 ++ (k, v) :: kvs2) e k = Some v.
+Proof.
+  intros kvs1 k v kvs2 e Hs Hn. unfold ewrite. rewrite fold_left_app. cbn [fold_left fst snd]. rewrite Hs.
+  fold (ewrite kvs2 (eupd (fold_left (fun e kv => if is_sink (fst kv) then e else eupd e (fst kv) (snd kv)) kvs1 e) k v)).
+  rewrite ewrite_frame; [|now left]. unfold eupd. now rewrite key_eqb_refl.
+Qed.
+
+Lemma spec_run_frame : forall ls e e' k, spec_run ls e = Some e' ->
+  (forall l, List.In l ls -> ~ List.In k (outs l)) -> e' k = e k.
+Proof.
+  induction ls as [|l r IH]; intros e e' k H Hn; cbn in H; [now inversion H|].
+  unfold apply_leaf in H. destruct (eread (ins l) e) as [args|]; [|discriminate].
+  rewrite (IH _ _ k H); [|intros; apply Hn; now right].
+  apply ewrite_frame. left. rewrite fst_leaf_vals. apply Hn. now left.
+Qed.
+
+Lemma nth_combine_seq : forall (A : Type) (f : nat -> A) (a : list key) s j k,
+  nth_error a j = Some k -> nth_error (combine a (map f (seq s (List.length a)))) j = Some (k, f (s + j)).
+Proof.
+  induction a as [|x a IH]; intros s j k H; destruct j; cbn in *; try discriminate.
+  - inversion H. now rewrite Nat.add_0_r.
+  - rewrite (IH (S s) j k H). now rewrite Nat.add_succ_r.
+Qed.
+
+Lemma In_fst_nth : forall (kvs : list (key * term)) k, List.In k (map fst kvs) -> exists j v, nth_error kvs j = Some (k, v).
+Proof.
+  induction kvs as [|[k1 v1] r IH]; intros k H; [destruct H|]. destruct H as [H|H].
+  - cbn in H. subst. now exists 0, v1.
+  - destruct (IH k H) as [j [v Hj]]. now exists (S j), v.
+Qed.
+
+Lemma nth_leaf_vals_fst : forall l args j k v, nth_error (leaf_vals l args) j = Some (k, v) -> nth_error (outs l) j = Some k.
+Proof.
+  intros l args j k v H. assert (E : nth_error (map fst (leaf_vals l args)) j = Some k) by (rewrite nth_error_map, H; reflexivity).
+  now rewrite fst_leaf_vals in E.
+Qed.
+
+Lemma last_writer : forall pre l post e e', spec_run (pre ++ l :: post) e = Some e' ->
+  exists e1 args, spec_run pre e = Some e1 /\ eread (ins l) e1 = Some args /\
+    forall j k, nth_error (outs l) j = Some k -> k <> sink ->
+      (forall j', j < j' -> nth_error (outs l) j' <> Some k) ->
+      (forall l', List.In l' post -> ~ List.In k (outs l')) ->
+      e' k = Some (App (mid l) j args).
+Proof.
+  intros pre l post e e' H. rewrite spec_run_app in H. destruct (spec_run pre e) as [e1|]; [|discriminate].
+  cbn in H. unfold apply_leaf in H. destruct (eread (ins l) e1) as [args|] eqn:Ea; [|discriminate].
+  exists e1, args. split; [reflexivity|]. split; [exact Ea|]. intros j k Hj Hs Hlast Hpost.
+  rewrite (spec_run_frame _ _ _ k H Hpost).
+  pose proof (nth_combine_seq term (fun j => App (mid l) j args) (outs l) 0 j k Hj) as Hn. cbn in Hn.
+  fold (leaf_vals l args) in Hn.
+  destruct (nth_error_split _ _ Hn) as [kvs1 [kvs2 [Hsplit Hlen]]]. rewrite Hsplit.
+  apply ewrite_last; [now apply sink_neq|]. intro HI.
+  destruct (In_fst_nth kvs2 k HI) as [j2 [v2 Hj2]].
+  apply (Hlast (j + S j2)); [lia|].
+  apply (nth_leaf_vals_fst l args _ k v2). rewrite Hsplit, nth_error_app2; [|lia].
+  replace (j + S j2 - List.length kvs1) with (S j2) by lia. exact Hj2.
+Qed.
+
+(* out_keys of a sequence: every key some module writes, once *)
+Lemma dedup_last_NoDup : forall l, NoDup (dedup_last l).
+Proof.
+  induction l as [|x r IH]; cbn; [constructor|]. destruct (memk x r) eqn:M; [assumption|].
+  constructor; [|assumption]. rewrite dedup_last_In. now apply memk_false.
+Qed.
+
+Lemma out_keys_are_writes : forall n, regular n = true ->
+  forall k, List.In k (out_keys n) <-> exists l, List.In l (leaves n) /\ List.In k (outs l).
+Proof.
+  induction n as [l|c ms IH] using node_ind'; intros HR k.
+  - cbn in HR. apply andb_true_iff in HR as [_ HR]. unfold out_keys. cbn. unfold leaf_out. destruct (lsel l); [discriminate|].
+    split; [intro H; exists l; split; [now left|assumption]|intros [l' [[<-|[]] H]]; assumption].
+  - cbn in HR. apply andb_true_iff in HR as [HR H4]. apply andb_true_iff in HR as [HR H3].
+    apply andb_true_iff in HR as [H1 H2]. destruct (ssel c) eqn:Es; [discriminate|].
+    unfold out_keys. cbn [io snd]. rewrite Es. rewrite dedup_last_In. fold (iofold ms ([], [])). rewrite iofold_ok. cbn [snd app].
+    rewrite in_flat_map. rewrite Forall_forall in IH. rewrite forallb_forall in H4. split.
+    + intros [m [Hm Hk]]. apply (IH m Hm (H4 m Hm)) in Hk as [l [Hl Ho]]. exists l. split; [|assumption].
+      cbn. apply in_flat_map. now exists m.
+    + intros [l [Hl Ho]]. cbn in Hl. apply in_flat_map in Hl as [m [Hm Hl]]. exists m. split; [assumption|].
+      apply (IH m Hm (H4 m Hm)). now exists l.
+Qed.
+
+(* ------------------------------------------------------------------ module_footprint *)
+Definition xa (oc : outcome) : td := match oc with Done x _ _ | Raised x _ => x end.
+Definition oa (oc : outcome) : option td := match oc with Done _ o _ | Raised _ o => o end.
+
+Fixpoint nosel (n : node) : bool :=
+  match n with
+  | Leaf l => negb (is_some (lsel l))
+  | Seq c ms => negb (is_some (ssel c)) && forallb nosel ms
+  end.
+Definition all_outs (n : node) : list key := flat_map outs (leaves n).
+(* no two distinct keys of the universe share their first component (in particular: only top-level keys) *)
+Definition hdinj (U : list key) : Prop := forall k k', List.In k U -> List.In k' U -> hdk k = hdk k' -> k = k'.
+Definition within (U : list key) (t : td) : Prop := forall k, has k t = true -> List.In k U.
+
+Lemma get_write_all_frame : forall kvs d k, ~ List.In k (map fst kvs) -> get k (write_all kvs d) = get k d.
+Proof.
+  intros kvs d k H. change (env_of (write_all kvs d) k = env_of d k). rewrite env_of_write_all.
+  apply ewrite_frame. now left.
+Qed.
+Lemma has_write_all : forall kvs d k, has k (write_all kvs d) = true -> has k d = true \/ List.In k (map fst kvs).
+Proof.
+  intros kvs d k H. destruct (in_dec key_dec k (map fst kvs)) as [HI|HI]; [now right|left].
+  unfold has in *. now rewrite get_write_all_frame in H.
+Qed.
+Lemma has_upd_ktu : forall dst src ktu k, has k (upd_ktu dst src ktu) = true -> has k dst = true \/ has k src = true.
+Proof.
+  intros dst src ktu k H. unfold has in H. rewrite get_upd_ktu in H.
+  destruct (upd_cond dst ktu k && has k src) eqn:C.
+  - apply andb_true_iff in C as [_ C]. now right.
+  - left. exact H.
+Qed.
+Lemma upd_cond_hd : forall dst ktu k, upd_cond dst ktu k = true -> exists k', List.In k' ktu /\ hdk k' = hdk k.
+Proof.
+  intros dst ktu k H. unfold upd_cond in H. apply andb_true_iff in H as [H _]. apply existsb_exists in H as [k' [Hk E]].
+  exists k'. split; [assumption|]. now apply String.eqb_eq.
+Qed.
+Lemma upd_ktu_frame : forall U dst src ktu k, hdinj U -> within U src -> (forall k', List.In k' ktu -> List.In k' U) ->
+  ~ List.In k ktu -> get k (upd_ktu dst src ktu) = get k dst.
+Proof.
+  intros U dst src ktu k HU Hs Hk Hn. rewrite get_upd_ktu.
+  destruct (upd_cond dst ktu k && has k src) eqn:C; [|reflexivity].
+  apply andb_true_iff in C as [C1 C2]. destruct (upd_cond_hd _ _ _ C1) as [k' [Hk' E]].
+  exfalso. apply Hn. rewrite <- (HU k' k (Hk k' Hk') (Hs k C2) E). exact Hk'.
+Qed.
+
+Lemma out_keys_child : forall ms m k, List.In m ms -> List.In k (out_keys m) -> List.In k (all_out_keys ms).
+Proof.
+  intros ms m k Hm Hk. unfold all_out_keys. apply dedup_last_In. fold (iofold ms ([], [])). rewrite iofold_ok.
+  cbn. apply in_flat_map. now exists m.
+Qed.
+Lemma out_keys_sub_all_outs : forall n, nosel n = true -> forall k, List.In k (out_keys n) -> List.In k (all_outs n).
+Proof.
+  induction n as [l|c ms IH] using node_ind'; intros HS k Hk.
+  - cbn in HS. unfold out_keys in Hk. cbn in Hk. unfold leaf_out in Hk. destruct (lsel l); [discriminate|].
+    unfold all_outs. cbn. now rewrite app_nil_r.
+  - cbn in HS. apply andb_true_iff in HS as [H1 H2]. destruct (ssel c) eqn:Es; [discriminate|].
+    unfold out_keys in Hk. cbn [io snd] in Hk. rewrite Es in Hk. apply (proj1 (dedup_last_In _ _)) in Hk.
+    fold (iofold ms ([], [])) in Hk. rewrite iofold_ok in Hk. cbn in Hk. apply in_flat_map in Hk as [m [Hm Hk]].
+    rewrite Forall_forall in IH. rewrite forallb_forall in H2. specialize (IH m Hm (H2 m Hm) k Hk).
+    unfold all_outs in *. cbn. apply in_flat_map in IH as [l [Hl Ho]].
+    apply in_flat_map. exists l. split; [|assumption]. apply in_flat_map. now exists m.
+Qed.
+
+Definition inner_fp (U : list key) (n : node) : Prop :=
+  forall x, within U x ->
+    let oc := fwd n x None in
+    (forall k, ~ List.In k (out_keys n) -> get k (xa oc) = get k x)
+    /\ within U (xa oc)
+    /\ (forall x' o' f, oc = Done x' o' (RFresh f) -> within U f).
+
+Lemma inner_fp_leaf : forall U l, nosel (Leaf l) = true -> (forall k, List.In k (outs l) -> List.In k U) -> inner_fp U (Leaf l).
+Proof.
+  intros U l HS HU x Hx. cbn in HS. cbn [fwd]. unfold fwd_leaf.
+  assert (Eo : out_keys (Leaf l) = outs l).
+  { unfold out_keys. cbn. unfold leaf_out. now destruct (lsel l). }
+  rewrite Eo. unfold hook. destruct (lsel l); [discriminate|].
+  destruct (read_all (ins l) x) as [args|]; cbn.
+  - destruct (linpl l); cbn.
+    + split; [|split].
+      * intros k Hk. apply get_write_all_frame. now rewrite fst_leaf_vals.
+      * intros k Hk. apply has_write_all in Hk as [Hk|Hk]; [now apply Hx|]. rewrite fst_leaf_vals in Hk. now apply HU.
+      * intros x' o' f E. discriminate.
+    + split; [reflexivity|]. split; [assumption|]. intros x' o' f E. inversion E; subst.
+      intros k Hk. apply has_write_all in Hk as [Hk|Hk]; [discriminate|]. rewrite fst_leaf_vals in Hk. now apply HU.
+    + split; [reflexivity|]. split; [assumption|]. intros x' o' f E. inversion E; subst.
+      intros k Hk. apply has_write_all in Hk as [Hk|Hk]; [discriminate|]. rewrite fst_leaf_vals in Hk. now apply HU.
+  - split; [reflexivity|]. split; [assumption|]. intros x' o' f E. discriminate.
+Qed.
+
+(* invariant of the module loop *)
+Definition run_inv (U okeys : list key) (x : td) (st : (td * option td) + (td * option td)) : Prop :=
+  let '(cur, sh) := match st with inl p | inr p => p end in
+  within U cur /\ within U (inp_of cur sh) /\ (forall k, ~ List.In k okeys -> get k (inp_of cur sh) = get k x).
+
+Lemma run_inv_step : forall U okeys pt ms, hdinj U ->
+  Forall (inner_fp U) ms -> (forall m k, List.In m ms -> List.In k (out_keys m) -> List.In k okeys) ->
+  forall x cur sh, within U cur -> within U (inp_of cur sh) ->
+    (forall k, ~ List.In k okeys -> get k (inp_of cur sh) = get k x) ->
+    run_inv U okeys x (run_gen fwd pt ms cur sh).
+Proof.
+  intros U okeys pt ms HU. induction ms as [|m r IH]; intros HF Hsub x cur sh Hc Hi Hg.
+  - cbn. auto.
+  - inversion HF as [|? ? Hm Hr]; subst. cbn [run_gen].
+    assert (Hsub' : forall m' k, List.In m' r -> List.In k (out_keys m') -> List.In k okeys) by (intros; eapply Hsub; [right|]; eassumption).
+    destruct (negb pt || subk (fst (io m)) (keys cur)); [|now apply IH].
+    destruct (Hm cur Hc) as [F1 [F2 F3]].
+    assert (Fr : forall k, ~ List.In k okeys -> get k (xa (fwd m cur None)) = get k cur).
+    { intros k Hk. apply F1. intro HI. apply Hk. eapply Hsub; [now left|eassumption]. }
+    destruct (fwd m cur None) as [cur' o' rr|cur' o'] eqn:E; cbn [xa] in *.
+    + assert (Step : forall sh', sh' = sh ->
+                within U (inp_of cur' sh') /\ (forall k, ~ List.In k okeys -> get k (inp_of cur' sh') = get k x)).
+      { intros sh' ->. destruct sh as [s|]; cbn [inp_of] in *; [now split|]. split; [assumption|].
+        intros k Hk. rewrite Fr; auto. }
+      destruct rr as [| |f].
+      * destruct (Step sh eq_refl). now apply IH.
+      * destruct (Step sh eq_refl). now apply IH.
+      * destruct (Step sh eq_refl) as [S1 S2]. apply IH; try assumption.
+        -- now apply (F3 cur' o' f).
+        -- destruct sh; cbn [inp_of] in *; assumption.
+        -- destruct sh; cbn [inp_of] in *; assumption.
+    + cbn. split; [assumption|]. destruct sh as [s|]; cbn [inp_of] in *; [now split|].
+      split; [assumption|]. intros k Hk. rewrite Fr; auto.
+Qed.
+
+Lemma inner_fp_node : forall U n, hdinj U -> nosel n = true -> (forall k, List.In k (all_outs n) -> List.In k U) -> inner_fp U n.
+Proof.
+  intros U n HU. induction n as [l|c ms IH] using node_ind'; intros HS HO.
+  - apply inner_fp_leaf; [assumption|]. intros k Hk. apply HO. unfold all_outs. cbn. now rewrite app_nil_r.
+  - cbn in HS. apply andb_true_iff in HS as [H1 H2]. destruct (ssel c) eqn:Es; [discriminate|].
+    assert (HF : Forall (inner_fp U) ms).
+    { rewrite Forall_forall in *. rewrite forallb_forall in H2. intros m Hm. apply IH; [assumption|now apply H2|].
+      intros k Hk. apply HO. unfold all_outs in *. cbn. apply in_flat_map in Hk as [l [Hl Hk]].
+      apply in_flat_map. exists l. split; [|assumption]. apply in_flat_map. now exists m. }
+    assert (Hok : forall k, List.In k (all_out_keys ms) -> List.In k U).
+    { intros k Hk. apply HO. apply (out_keys_sub_all_outs (Seq c ms)).
+      - cbn. rewrite Es. cbn. exact H2.
+      - unfold out_keys. cbn [io snd]. rewrite Es. exact Hk. }
+    intros x Hx. cbn [fwd]. unfold seq_copied, seq_okeys. rewrite Es. cbn [is_some].
+    assert (Eo : out_keys (Seq c ms) = all_out_keys ms) by (unfold out_keys; cbn [io snd]; now rewrite Es).
+    rewrite Eo.
+    pose proof (run_inv_step U (all_out_keys ms) (spt c) ms HU HF (out_keys_child ms) x x None Hx Hx (fun k _ => eq_refl)) as Inv.
+    unfold run_inv in Inv.
+    destruct (run_gen fwd (spt c) ms x None) as [[cur sh]|[cur sh]]; destruct Inv as [I1 [I2 I3]].
+    + cbn [finish]. rewrite Es. cbn [is_some].
+      destruct (sinpl c) as [[| |]|].
+      * destruct sh as [s|]; cbn [xa inp_of] in *.
+        -- split; [|split].
+           ++ intros k Hk. rewrite (upd_ktu_frame U); auto.
+           ++ intros k Hk. apply has_upd_ktu in Hk as [Hk|Hk]; auto.
+           ++ intros x' o' f E; discriminate.
+        -- split; [assumption|]. split; [assumption|]. intros x' o' f E; discriminate.
+      * cbn [xa]. split; [assumption|]. split; [assumption|]. intros x' o' f E. inversion E; subst.
+        intros k Hk. apply has_upd_ktu in Hk as [Hk|Hk]; [discriminate|auto].
+      * cbn [xa]. split; [assumption|]. split; [assumption|]. intros x' o' f E. inversion E; subst.
+        intros k Hk. apply has_upd_ktu in Hk as [Hk|Hk]; [discriminate|auto].
+      * destruct sh as [s|]; cbn [xa inp_of] in *.
+        -- split; [assumption|]. split; [assumption|]. intros x' o' f E. inversion E; subst. assumption.
+        -- split; [assumption|]. split; [assumption|]. intros x' o' f E; discriminate.
+    + cbn [finish xa]. split; [assumption|]. split; [assumption|]. intros x' o' f E; discriminate.
+Qed.
+
+(* the top module with a tensordict_out: neither the input nor tensordict_out changes outside out_keys *)
+Lemma footprint_partial : forall U n x o, hdinj U -> nosel n = true ->
+  (forall k, List.In k (all_outs n) -> List.In k U) -> within U x ->
+  (forall ot, o = Some ot -> within U ot) ->
+  forall k, ~ List.In k (out_keys n) ->
+    get k (xa (fwd n x o)) = get k x
+    /\ match o, oa (fwd n x o) with
+       | Some ot, Some ot' => get k ot' = get k ot
+       | None, None => True
+       | _, _ => False
+       end.
+Proof.
+  intros U n x o HU HS HO Hx Ho k Hk. destruct o as [ot|].
+  2:{ destruct (inner_fp_node U n HU HS HO x Hx) as [F1 _]. split; [now apply F1|].
+      destruct n as [l|c ms]; cbn [fwd].
+      - unfold fwd_leaf. destruct (read_all (ins l) x); [destruct (linpl l)|]; exact I.
+      - destruct (run_gen fwd (spt c) ms x (if seq_copied c None then Some x else None)) as [[cur sh]|[cur sh]]; cbn [finish oa]; [|exact I].
+        destruct (sinpl c) as [[| |]|]; [destruct sh| | |destruct (is_some (ssel c)); [|destruct sh]]; exact I. }
+  specialize (Ho ot eq_refl).
+  destruct n as [l|c ms].
+  - cbn in HS. cbn [fwd]. unfold fwd_leaf.
+    assert (Eo : out_keys (Leaf l) = outs l).
+    { unfold out_keys. cbn. unfold leaf_out. now destruct (lsel l). }
+    rewrite Eo in Hk. unfold hook. destruct (lsel l); [discriminate|].
+    destruct (read_all (ins l) x); cbn; [|now split]. split; [reflexivity|].
+    apply get_write_all_frame. now rewrite fst_leaf_vals.
+  - cbn in HS. apply andb_true_iff in HS as [H1 H2]. destruct (ssel c) eqn:Es; [discriminate|].
+    assert (HF : Forall (inner_fp U) ms).
+    { apply Forall_forall. rewrite forallb_forall in H2. intros m Hm. apply inner_fp_node; [assumption|now apply H2|].
+      intros k' Hk'. apply HO. unfold all_outs in *. cbn. apply in_flat_map in Hk' as [l [Hl Hk']].
+      apply in_flat_map. exists l. split; [|assumption]. apply in_flat_map. now exists m. }
+    assert (Hok : forall k, List.In k (all_out_keys ms) -> List.In k U).
+    { intros k' Hk'. apply HO. apply (out_keys_sub_all_outs (Seq c ms)).
+      - cbn. rewrite Es. cbn. exact H2.
+      - unfold out_keys. cbn [io snd]. rewrite Es. exact Hk'. }
+    assert (Eo : out_keys (Seq c ms) = all_out_keys ms) by (unfold out_keys; cbn [io snd]; now rewrite Es).
+    rewrite Eo in Hk. cbn [fwd]. unfold seq_copied, seq_okeys. rewrite Es.
+    pose proof (run_inv_step U (all_out_keys ms) (spt c) ms HU HF (out_keys_child ms) x x (Some x) Hx Hx (fun k _ => eq_refl)) as Inv.
+    unfold run_inv in Inv.
+    destruct (run_gen fwd (spt c) ms x (Some x)) as [[cur sh]|[cur sh]]; destruct Inv as [I1 [I2 I3]]; cbn [finish xa oa].
+    + split; [now apply I3|]. rewrite (upd_ktu_frame U); auto.
+    + split; [now apply I3|reflexivity].
+Qed.
+
+(* ------------------------------------------------------------------ where the footprint statement fails today *)
+Definition ka : key := ["a"%string].  Definition kb : key := ["b"%string].  Definition kc : key := ["c"%string].
+Definition kz : key := ["z"%string].
+Definition knx : key := ["n"%string; "x"%string].  Definition kny : key := ["n"%string; "y"%string].
+Definition mk (i : nat) (a b : list key) : leaf := {| mid := i; ins := a; outs := b; lsel := None; linpl := ITrue |}.
+Definition mksel (i : nat) (a b s : list key) : leaf := {| mid := i; ins := a; outs := b; lsel := Some s; linpl := ITrue |}.
+Definition dcfg := default_cfg false.
+
+(* D9: select_out_keys on an in-place module drops the unrelated entry z of the input *)
+Definition d9_node := Leaf (mksel 1 [ka] [kb; kc] [kc]).
+Definition d9_x : td := [(ka, In ka); (kz, In kz)].
+Lemma footprint_refuted_D9 : ~ List.In kz (out_keys d9_node) /\ get kz (xa (fwd d9_node d9_x None)) = None /\ get kz d9_x = Some (In kz).
+Proof. split; [|split; reflexivity]. cbn. intros [H|[]]; discriminate. Qed.
+
+(* D141: the unselected output a is still written because a is also an in_key *)
+Definition d141_node := Leaf (mksel 1 [ka] [ka; kb] [kb]).
+Lemma footprint_refuted_D141 : ~ List.In ka (out_keys d141_node)
+  /\ get ka (xa (fwd d141_node [(ka, In ka)] None)) = Some (App 1 0 [In ka]).
+Proof. split; [|reflexivity]. cbn. intros [H|[]]; discriminate. Qed.
+
+(* D142: a sequence with select_out_keys(c) writes the overwritten input entry a back *)
+Definition d142_node := Seq {| sinpl := None; ssel := Some [kc]; spt := false; sdict := false |}
+                            [Leaf (mk 1 [ka] [ka]); Leaf (mk 2 [ka] [kc])].
+Lemma footprint_refuted_D142 : ~ List.In ka (out_keys d142_node)
+  /\ get ka (xa (fwd d142_node [(ka, In ka)] None)) = Some (App 1 0 [In ka]).
+Proof. split; [|reflexivity]. cbn. intros [H|[]]; discriminate. Qed.
+
+(* D143: update(keys_to_update=[(n,x)]) copies the sibling (n,y) into a tensordict_out that has no node n *)
+Definition d143_node := Seq dcfg [Leaf (mk 1 [ka] [knx])].
+Definition d143_x : td := [(ka, In ka); (kny, In kny)].
+Lemma footprint_refuted_D143 : ~ List.In kny (out_keys d143_node)
+  /\ oa (fwd d143_node d143_x (Some [])) = Some [(kny, In kny); (knx, App 1 0 [In ka])].
+Proof. split; [|reflexivity]. cbn. intros [H|[]]; discriminate. Qed.
+
+Definition footprint_statement (n : node) (x : td) (o : option td) (k : key) : Prop :=
+  get k (xa (fwd n x o)) = get k x
+  /\ match o, oa (fwd n x o) with
+     | Some ot, Some ot' => get k ot' = get k ot
+     | None, None => True
+     | _, _ => False
+     end.
+
+Lemma footprint_refuted : exists n x o k, ~ List.In k (out_keys n) /\ ~ footprint_statement n x o k.
+Proof.
+  exists d9_node, d9_x, None, kz. destruct footprint_refuted_D9 as [H1 [H2 H3]]. split; [assumption|].
+  intros [H _]. rewrite H2, H3 in H. discriminate.
+Qed.
+Lemma footprint_refuted_tout : exists n x ot k, ~ List.In k (out_keys n) /\ nosel n = true /\ ~ footprint_statement n x (Some ot) k.
+Proof.
+  exists d143_node, d143_x, [], kny. destruct footprint_refuted_D143 as [H1 H2]. split; [assumption|]. split; [reflexivity|].
+  intros [_ H]. vm_compute in H. discriminate.
+Qed.
+Lemma footprint_refuted_seq_select : exists n x k, ~ List.In k (out_keys n) /\ top_regular n = true /\ ~ footprint_statement n x None k.
+Proof.
+  exists d142_node, [(ka, In ka)], ka. destruct footprint_refuted_D142 as [H1 H2]. split; [assumption|]. split; [reflexivity|].
+  intros [H _]. rewrite H2 in H. discriminate.
+Qed.
